@@ -102,6 +102,9 @@ void vf_run(uint64_t idx, const std::string& tier, vf::Ctx& c) {
   LambertConverter conv = k.tangent ? LambertConverter(LambertConverter::TangentProjectionParameters{k.lat0, k.lon0, k.k0, k.x0, k.y0}, ell)
                                     : LambertConverter(LambertConverter::SecantProjectionParameters{k.lon0, k.lat0, k.lat1, k.lat2, k.x0, k.y0}, ell);
   std::string cj = cfg_json(k);
+  // a copy-constructed converter, and a converter of another zone overwritten by assignment, must answer like the original
+  LambertConverter copied(conv);
+  LambertConverter assigned(LambertConverter::SecantProjectionParameters{3 * D, -30 * D, -25 * D, -35 * D, 10, 20}, EarthEllipsoid(6378137.0, 6378137.0)); (void)assigned.toLambert(WGS84Coordinates{-30 * D, 4 * D}); assigned = conv;
   auto fwd = [&](long double lat, long double lon) { Eigen::Vector2d p = conv.toLambert(WGS84Coordinates{(double)lat, (double)lon}); return Eigen::Matrix<long double, 2, 1>(p[0], p[1]); };
   // local scales along the meridian (h) and the parallel (kk) from central differences of the library's forward map
   auto scales = [&](double lat, double lon, long double& h, long double& kk, long double& cosang, long double& orient) {
@@ -135,6 +138,10 @@ void vf_run(uint64_t idx, const std::string& tier, vf::Ctx& c) {
     c.eval(); if (dphi != 0 || dlam != 0) c.nontrivial();
     Eigen::Vector2d p = conv.toLambert(WGS84Coordinates{lat, lon});
     c.obs(p[0]); c.obs(p[1]);
+    { Eigen::Vector2d pc = copied.toLambert(WGS84Coordinates{lat, lon}), pa = assigned.toLambert(WGS84Coordinates{lat, lon}); WGS84Coordinates wo = conv.toWGS84(p), wc = copied.toWGS84(p), wa = assigned.toWGS84(p);
+      auto eq = [](double a, double b) { return a == b || (a != a && b != b); };
+      if (!eq(pc[0], p[0]) || !eq(pc[1], p[1]) || !eq(pa[0], p[0]) || !eq(pa[1], p[1]) || !eq(wc.latitude, wo.latitude) || !eq(wc.longitude, wo.longitude) || !eq(wa.latitude, wo.latitude) || !eq(wa.longitude, wo.longitude))
+        c.violation("LambertConverter.copyOrAssignedDiffers", params, vf::JO().vec("original", std::vector<double>{p[0], p[1], wo.latitude, wo.longitude}).vec("copy", std::vector<double>{pc[0], pc[1], wc.latitude, wc.longitude}).vec("assigned", std::vector<double>{pa[0], pa[1], wa.latitude, wa.longitude}).done()); }
     if (!std::isfinite(p[0]) || !std::isfinite(p[1])) { c.violation("LambertConverter.toLambert.notFinite", params, "{}"); continue; }
     if (dlam == 0 && std::fabs(p[0] - k.x0) > 1e-6) c.violation("LambertConverter.toLambert.centralMeridian", params, vf::JO().num("x", p[0]).num("x0", k.x0).done());
     long double h, kk, ca, orient; scales(lat, lon, h, kk, ca, orient);
